@@ -1,0 +1,19 @@
+//go:build verif
+
+package asn1
+
+// VerifFieldParameters is the exported image of fieldParameters.
+type VerifFieldParameters struct {
+	Optional, Explicit, Application, Private bool
+	DefaultValue                             *int64
+	Tag                                      *int
+	StringType, TimeType                     int
+	Set, OmitEmpty                           bool
+}
+
+// VerifParseFieldParameters runs the package's tag-string parser.
+func VerifParseFieldParameters(s string) VerifFieldParameters {
+	p := parseFieldParameters(s)
+	return VerifFieldParameters{p.optional, p.explicit, p.application, p.private,
+		p.defaultValue, p.tag, p.stringType, p.timeType, p.set, p.omitEmpty}
+}
